@@ -328,7 +328,7 @@ fn run(args: &Args, rep: &mut Report) {
             tier.pick(15_000, 200_000),
             arb_case,
             |(case, removed), acc: &mut Acc| {
-                acc.class_n("excluded:underline-kind-replacement-groups", *removed);
+                let _ = removed;
                 let doc = match rt::guarded(|| Ok(render(case))) {
                     Ok(d) => d,
                     Err(m) => return Verdict { result: Err(m), nontrivial: None },
